@@ -8,11 +8,11 @@ ID = "C16"
 RULE = ("E-INPUT: start instants (days 27-31/1-2 around every month end and every Sunday of 2019-2020 x 2 times of day, 4 early "
         "instants from 1900-1950, a seeded instant; thorough: every day 2019-2022 x 3 times of day) x a 42-rung span ladder "
         "1 ms..250 y (incl. 7,8,9 ms and 28-31 d) x counts (quick {2,3,5,10,17,50}; thorough 2..50) x both orientations, "
-        "through the real TimeScale().domain(..).ticks(m). Oracle: no exception, strictly increasing, in-domain, calendar class "
+        "through the real TimeScale().domain(..).ticks(m); plus scale/copy histories (domain, [ticks], copy, re-domain the copy, ticks on both) over 4 starts x span pairs of different magnitude, compared with fresh scales. Oracle: no exception, strictly increasing, in-domain, calendar class "
         "from the smallest gap (R-CAL), gap ratio <= 2, count bounds. Non-trivial: >= 2 ticks; separately counted: domains "
         "crossing a 29th-31st, sub-second steps.")
 ASSUMPTIONS = ["TZ=UTC in this check; zone independence is C18", "degenerate (zero-span) domains are outside the property"]
-REQUIRED_COUNTERS = ("tick_lists", "subsecond", "class_d", "class_mon", "class_y", "class_h", "class_min", "class_s")
+REQUIRED_COUNTERS = ("copy_histories", "tick_lists", "subsecond", "class_d", "class_mon", "class_y", "class_h", "class_min", "class_s")
 
 
 def bounds(tier, seed):
@@ -91,6 +91,37 @@ def judge(st, sp, m, rev, acc=None):
     return None
 
 
+def judge_copy_history(dA, dB, m, order, acc=None):
+    """a.domain(A); b = a.copy(); b.domain(B); then ticks(m) on both (in either order): each must equal the ticks of a
+    fresh scale with the same domain (ticks depend on the domain and the count only)."""
+    from labella.scale import TimeScale
+    try:
+        with horizon(20.0):
+            a = TimeScale().domain(list(dA))
+            if order[0] == "t":  # ticks before the copy is taken
+                a.ticks(m)
+            b = a.copy()
+            b.domain(list(dB))
+            first, second = (a, b) if order[1] == "a" else (b, a)
+            got = {id(first): first.ticks(m)}
+            got[id(second)] = second.ticks(m)
+            want_a = TimeScale().domain(list(dA)).ticks(m)
+            want_b = TimeScale().domain(list(dB)).ticks(m)
+    except Hang:
+        return "HANG", "copy history did not return"
+    except Exception as e:
+        return "EXC:" + type(e).__name__, "copy history on %r / %r raised %r" % (dA, dB, e)
+    if acc is not None:
+        acc.counters["copy_histories"] += 1
+    if list(got[id(a)]) != list(want_a):
+        return ("C16:copy-history", "a.domain(%s..%s); b=a.copy(); b.domain(%s..%s): a.ticks(%d) = %s..., a fresh scale gives %s..."
+                % (dA[0], dA[1], dB[0], dB[1], m, [str(x) for x in got[id(a)][:3]], [str(x) for x in want_a[:3]]))
+    if list(got[id(b)]) != list(want_b):
+        return ("C16:copy-history", "a.domain(%s..%s); b=a.copy(); b.domain(%s..%s): b.ticks(%d) = %s..., a fresh scale gives %s..."
+                % (dA[0], dA[1], dB[0], dB[1], m, [str(x) for x in got[id(b)][:3]], [str(x) for x in want_b[:3]]))
+    return None
+
+
 def starts_for(shard):
     if shard["kind"] == "grid":
         out = []
@@ -105,9 +136,10 @@ def starts_for(shard):
 
 
 def plan(tier, seed):
+    hist = [{"kind": "copyhist", "mod": 8, "rem": r} for r in range(8)]
     if tier == "quick":
-        return [{"kind": "grid", "seed": seed, "mod": 32, "rem": r, "counts": [2, 3, 5, 10, 17, 50]} for r in range(32)]
-    shards = [{"kind": "grid", "seed": seed, "mod": 16, "rem": r, "counts": list(range(2, 51))} for r in range(16)]
+        return [{"kind": "grid", "seed": seed, "mod": 32, "rem": r, "counts": [2, 3, 5, 10, 17, 50]} for r in range(32)] + hist
+    shards = hist + [{"kind": "grid", "seed": seed, "mod": 16, "rem": r, "counts": list(range(2, 51))} for r in range(16)]
     for y in (2019, 2020, 2021, 2022):
         for r in range(24):
             shards.append({"kind": "days", "y0": y, "y1": y, "mod": 24, "rem": r,
@@ -117,6 +149,33 @@ def plan(tier, seed):
 
 def run_shard(shard):
     acc = Acc()
+    if shard["kind"] == "copyhist":
+        spans = timegrid.SPANS_MS[9::3]
+        sts = timegrid.EARLY[:2] + [datetime(2020, 1, 31, 13, 30), datetime(2020, 2, 29)]
+        k = 0
+        for st in sts:
+            for spA in spans:
+                for spB in spans:
+                    if spA == spB:
+                        continue
+                    k += 1
+                    if k % shard["mod"] != shard["rem"]:
+                        continue
+                    dA = [st, st + timedelta(milliseconds=spA)]
+                    dB = [st + timedelta(days=3), st + timedelta(days=3, milliseconds=spB)]
+                    if dB[1].year > 2200 or dA[1].year > 2200:
+                        continue
+                    acc.states += 1
+                    for m in (5, 10):
+                        for order in ("-a", "-b", "ta", "tb"):
+                            bad = judge_copy_history(dA, dB, m, order, acc)
+                            acc.evals += 1
+                            acc.trans += 1
+                            if bad:
+                                acc.violation({"hist": "copy", "dA": dA, "dB": dB, "m": m, "order": order}, bad[0], bad[1],
+                                              order=(10 ** 13, k, m))
+        acc.sample({"hist": "copy", "dA": dA, "dB": dB, "m": 10, "order": "ta"})
+        return acc
     for si, st in enumerate(starts_for(shard)):
         if si % shard["mod"] != shard["rem"]:
             continue
@@ -138,10 +197,15 @@ def run_shard(shard):
 
 
 def replay(case):
+    if case.get("hist") == "copy":
+        return judge_copy_history(case["dA"], case["dB"], case["m"], case["order"])
     return judge(case["start"], case["span_ms"], case["m"], case["rev"])
 
 
 def snippet(case):
+    if case.get("hist") == "copy":
+        return ("import datetime\nfrom labella.scale import TimeScale\na=TimeScale().domain(%r); b=a.copy(); b.domain(%r)\n"
+                "print(a.ticks(%d)[:3], b.ticks(%d)[:3])" % (case["dA"], case["dB"], case["m"], case["m"]))
     en = case["start"] + timedelta(milliseconds=case["span_ms"])
     dom = [en, case["start"]] if case["rev"] else [case["start"], en]
     return ("import datetime\nfrom labella.scale import TimeScale\nprint(TimeScale().domain(%r).ticks(%d))" % (dom, case["m"]))
